@@ -4,13 +4,21 @@
      k_nops        messages attempted on this pool so far, this one included
      k_others_same no balance outside {acting user, pool account, fee account} and no supply changed
      k_in / k_out  cumulative amounts that entered / left the pool's two accounts (from bank deltas)
-     k_sp_min      smallest non-zero sqrt price (raw, 10^-18 units) the pool has had so far (0 = none) *)
+     k_sp_min      smallest non-zero sqrt price (raw, 10^-18 units) the pool has had so far (0 = none)
+     k_owners_canonical  the owner string stored with every open position of the pool (post-state) is the
+                   canonical encoding of the address it decodes to.  The owner checks of DecreaseLiquidity /
+                   ClaimRewards / IncreaseLiquidity compare the stored string with the canonical encoding of
+                   the sender, so a position stored under any other spelling (bech32 also decodes the
+                   all-upper-case form) can be reduced or claimed by nobody: its provider cannot exit.
+                   (The dump maps owners to account ids by string equality, so such a position also shows
+                   up as owned by the unknown id 99 and the creating step disagrees with the model.) *)
 From Coq Require Import ZArith List Bool.
 Import ListNotations.
 From Sunrise Require Export Amm.AmmCheck Amm.LiqDefs Amm.Custody.
 Local Open Scope Z_scope.
 
-Record c02_case := { k_case : amm_case; k_nops : Z; k_others_same : bool; k_in : vec; k_out : vec; k_sp_min : Z }.
+Record c02_case := { k_case : amm_case; k_nops : Z; k_others_same : bool; k_in : vec; k_out : vec; k_sp_min : Z;
+                     k_owners_canonical : bool }.
 
 Definition denoms : list Z := [0; 1; 2; 3].
 
@@ -90,6 +98,8 @@ Definition mon_nonneg (c : amm_case) : bool := bal_nonneg_b (c_post c).
    there), which is how a bookkeeping fault becomes a custody fault; [liq_inv_b] is the decision
    procedure proved complete for [Inv] (C04_monitor_complete), evaluated here on every post-state. *)
 Definition mon_bookkeeping (c : amm_case) : bool := liq_inv_b (c_post c).
+(* every open position is stored under an owner string its owner's messages can match *)
+Definition mon_owner_string (k : c02_case) : bool := k_owners_canonical k.
 
 (* ---- known finding C02-F1: half-even intermediate rounding in CalcAmountBaseDelta ----
    CalcAmountBaseDelta = ((sb - sa) * liq / sb / sa) rounds the product and both quotients to the
@@ -130,6 +140,7 @@ Definition c02_check (k : c02_case) : list Z :=
   flag 7 (mon_flows k) ++
   flag 8 (mon_nonneg c) ++
   flag 9 (mon_bookkeeping c) ++
+  flag 10 (mon_owner_string k) ++
   (if solv && ex then []
    else (if trig_f1 k then [101] else []) ++ (if trig_f1_exit k then [102] else [])).
 
